@@ -112,7 +112,7 @@ Qed.
 Lemma in_class_rep_operand G a i z b ne : in_class G (Rep a i z b ne) = true ->
   in_class G (snd (rep_operand (Rep a i z b ne) b)) = true.
 Proof.
-  intros H. simpl in H. destruct ne; [discriminate H|].
+  intros H. simpl in H. apply andb_prop in H as [H _].
   apply andb_prop in H as [H Hb]. apply andb_prop in H as [Hp _].
   unfold rep_operand. cbn [attrs_of]. unfold plain_attrs in Hp.
   destruct (acts a); [|discriminate]. destruct (rsname a); [discriminate|]. exact Hb.
@@ -146,6 +146,106 @@ Definition inv (f : nat) : Prop := forall e, in_class G e = true -> forall loc d
   good (pparse f (mkargs e s loc d true)) (ppeg f e loc) /\
   (stable e loc -> good (pparse f (mkargs e s loc d false)) (ppeg f e loc)).
 
+(* a call WITHOUT pre-parse at ANY location (how SkipTo calls its target): the reading of `nopre e` *)
+Definition invnp (f : nat) : Prop := forall e, in_class G e = true -> np_ok G e = true -> forall loc d,
+  good (pparse f (mkargs e s loc d false)) (ppeg f (nopre e) loc).
+
+(* one level of the reading, at the location reached after the element's own whitespace skip (a copy of the body of `peg`) *)
+Definition peg_at (f : nat) (e : expr) (loc : nat) : res :=
+  let a := attrs_of e in
+  match e with
+  | Tok _ _ t =>
+    match tok_impl a t s loc with
+    | IOk l r => POk l (raw_tokens r)
+    | _ => PFail
+    end
+  | Nary _ _ NAnd es => peg_seq (ppeg f) es loc []
+  | Nary _ _ NMatchFirst es => peg_first (ppeg f) es loc
+  | Nary _ _ NOr es =>
+    let loc1 := if forallb (fun c => callpre (attrs_of c)) es
+                then (if skipws a then skip_white s loc (white a) else loc) else loc in
+    peg_longest (ppeg f) es loc1 None
+  | Nary _ _ (NEach info) es => peg_each s (ppeg f) es info loc
+  | Enh _ _ (EOpt d) c =>
+    match ppeg f c loc with
+    | PFail => POk loc (match d with Some v => [tok_as_list v] | None => [] end)
+    | r => r
+    end
+  | Enh _ _ ENot c => match ppeg f c loc with POk _ _ => PFail | PFail => POk loc [] | r => r end
+  | Enh _ _ EFollowedBy c => match ppeg f c loc with POk _ _ => POk loc [] | r => r end
+  | Enh _ _ ELookahead c => match ppeg f c loc with POk _ _ => POk loc [] | r => r end
+  | Enh _ _ (EGroup false) c => match ppeg f c loc with POk l ts => POk l [TList ts] | r => r end
+  | Enh _ _ ESuppress c => match ppeg f c loc with POk l _ => POk l [] | r => r end
+  | Enh _ _ EPass c => ppeg f c loc
+  | Enh _ _ (ECombine join) c =>
+    match ppeg f c loc with
+    | POk l ts => POk l [TStr (concat (join_strings join ts))]
+    | r => r
+    end
+  | Rep _ _ zero body (Some ne) =>
+    match ppeg f ne loc with
+    | PFail => if zero then POk loc [] else PFail
+    | POk _ _ =>
+      match ppeg f body loc with
+      | POk l ts => peg_star_stop (ppeg f) (length s + 3) body ne l ts
+      | PFail => if zero then POk loc [] else PFail
+      | r => r
+      end
+    | r => r
+    end
+  | Rep _ _ zero body None =>
+    match ppeg f body loc with
+    | POk l ts => peg_star (ppeg f) (length s + 3) body l ts
+    | PFail => if zero then POk loc [] else PFail
+    | r => r
+    end
+  | Skip _ _ target incl [] failon =>
+    match peg_skip_scan s (ppeg f) (length s + 2) target failon loc with
+    | POk tl _ =>
+      if incl then match ppeg f (nopre target) tl with
+                   | POk l ts => POk l (TStr (slice_ s loc tl) :: ts)
+                   | r => r
+                   end
+      else POk tl [TStr (slice_ s loc tl)]
+    | r => r
+    end
+  | Fwd _ _ (Some id) => match nth_error G id with Some c => ppeg f c loc | None => PFail end
+  | _ => PFail
+  end.
+
+Lemma peg_S f e loc0 : ppeg (S f) e loc0 = peg_at f e (eff s e loc0).
+Proof. reflexivity. Qed.
+
+Lemma eff_nopre e L : eff s (nopre e) L = L.
+Proof. unfold eff. destruct e; reflexivity. Qed.
+
+Lemma tok_impl_nopre a t l : tok_impl (nopre_attrs a) t s l = tok_impl a t s l.
+Proof. destruct t; reflexivity. Qed.
+
+Lemma peg_at_nopre f e L : peg_at f (nopre e) L = peg_at f e L.
+Proof.
+  destruct e as [a i t|a i k es|a i k c|a i z b ne|a i c inc ig fo|a i id]; reflexivity.
+Qed.
+
+Definition head_ok (e : expr) (L : nat) : Prop := forall c, head_child G e = Some c -> stable c L.
+
+Lemma nonskip_stable c L : nonskip c = true -> stable c L.
+Proof.
+  unfold nonskip, stable, eff. destruct (callpre (attrs_of c) && skipws (attrs_of c)); [discriminate|reflexivity].
+Qed.
+
+Lemma in_class_head e c : in_class G e = true -> head_child G e = Some c -> child_ok (attrs_of e) c = true.
+Proof.
+  destruct e as [a i t|a i k es|a i k c0|a i z b ne|a i c0 inc ig fo|a i id]; cbn [head_child attrs_of]; intros H Hh;
+    try discriminate Hh.
+  - destruct k; try discriminate Hh. destruct es as [|c1 rest]; [discriminate Hh|]. injection Hh as <-.
+    simpl in H. apply andb_prop in H as [H _]. apply andb_prop in H as [_ H]. exact H.
+  - simpl in H. apply andb_prop in H as [_ Hk].
+    destruct k; try discriminate Hk; try discriminate Hh; injection Hh as <-;
+      first [ exact Hk | destruct aspy; [discriminate Hk|exact Hk] | apply andb_prop in Hk as [Hk _]; exact Hk ].
+  - destruct id as [id|]; [|discriminate Hh]. simpl in H. apply andb_prop in H as [_ H]. rewrite Hh in H. exact H.
+Qed.
+
 (* plain attributes: no actions, no name, no ignorables *)
 Lemma in_class_plain e : in_class G e = true -> plain_attrs (attrs_of e) = true /\ ign_of e = [].
 Proof.
@@ -158,7 +258,9 @@ Proof.
     + repeat (apply andb_prop in H as [H ?]). destruct i; [auto|discriminate].
     + repeat (apply andb_prop in H as [H ?]). destruct i; [auto|discriminate].
   - repeat (apply andb_prop in H as [H ?]). destruct i; [auto|discriminate].
-  - destruct ne; [discriminate H|]. repeat (apply andb_prop in H as [H ?]). destruct i; [auto|discriminate].
+  - repeat (apply andb_prop in H as [H ?]). destruct i; [auto|discriminate].
+  - destruct ig; [|discriminate H]. destruct fo; [discriminate H|].
+    repeat (apply andb_prop in H as [H ?]). destruct i; [auto|discriminate].
   - destruct id; [|discriminate H]. repeat (apply andb_prop in H as [H ?]). destruct i; [auto|discriminate].
 Qed.
 
@@ -210,6 +312,7 @@ Proof. destruct k; simpl; congruence. Qed.
 Section Level.
 Variable f : nat.
 Hypothesis IH : inv f.
+Hypothesis IHnp : invnp f.
 
 (* failing out of a container with a ParseException *)
 Lemma fail_pe e d L x : is_pe (xk x) = true ->
@@ -401,24 +504,68 @@ Proof.
   - injection H1 as <-. reflexivity.
 Qed.
 
+(* repetition with stop_on: the sentinel `ne` (NotAny(stop_on)) is tried before every round by try_parse (do_actions = False,
+   with pre-parse): by the induction hypothesis it answers Ok (the round goes on), a ParseException (the loop ends with what
+   was accumulated), Div or out-of-fuel: never a fatal exception, so try_parse's conversion is not exercised. *)
+Lemma rep_go_stop_ok e body ne d L foe : in_class G e = true -> in_class G body = true -> in_class G ne = true ->
+  (forall l acc, run (pparse f) (step_k e s d L (inr (l, RPR acc))) = Some (Ok l (PR (toks acc) (dict acc) (allnames acc) (rname acc) (modalr (attrs_of e))))) ->
+  forall n loc acc,
+  good (run (pparse f) (rep_go (step_k e s d L) foe e body (Some ne) s d n loc acc)) (peg_star_stop (ppeg f) n body ne loc (pr_as_list acc)).
+Proof.
+  intros He Hb Hne HK. destruct (in_class_plain e He) as [_ Hi].
+  induction n as [|n IHn]; intros loc acc; [reflexivity|].
+  cbn [rep_go peg_star_stop]. unfold check_ender, try_parse, call. cbn [run].
+  destruct (IH ne Hne loc false) as [N1 _]. unfold good in N1.
+  destruct (pparse f (mkargs ne s loc false true)) as [[nl nr|nx|]|]; simpl in N1.
+  - injection N1 as <-. rewrite Hi. rewrite skip_ignorables_nil. unfold call. cbn [run].
+    destruct (IH body Hb loc d) as [H1 _]. unfold good in H1.
+    destruct (pparse f (mkargs body s loc d true)) as [[l r|x|]|]; simpl in H1.
+    + injection H1 as <-. destruct (Nat.eqb l loc); [reflexivity|]. rewrite <- as_list_iadd. apply IHn.
+    + destruct (is_pe (xk x)) eqn:K; [|discriminate]. injection H1 as <-.
+      rewrite ?K. cbn [orb]. rewrite HK. reflexivity.
+    + injection H1 as <-. reflexivity.
+    + injection H1 as <-. reflexivity.
+  - destruct (is_pe (xk nx)) eqn:K; [|discriminate]. injection N1 as <-.
+    rewrite (is_pe_not_fatal _ K). cbn [andb]. rewrite ?K. cbn [orb]. rewrite HK. reflexivity.
+  - injection N1 as <-. reflexivity.
+  - injection N1 as <-. reflexivity.
+Qed.
+
+(* SkipTo's scan: the target is called without pre-parse (do_actions = False) at tmploc, tmploc + 1, ... up to the end of
+   the text; by `invnp` each of these calls obeys the reading of `nopre target` *)
+Lemma skipto_scan_ok e target d L : in_class G target = true -> np_ok G target = true ->
+  forall (K : nat -> prg) (Kp : nat -> res), (forall tl, good (run (pparse f) (K tl)) (Kp tl)) ->
+  forall n loc0 tl,
+  good (run (pparse f) (skipto_scan (fail_of (step_k e s d L)) n e target None None s loc0 tl K))
+       (match peg_skip_scan s (ppeg f) n target None tl with
+        | POk tl' _ => Kp tl' | PFail => PFail | PDiv => PDiv | POut => POut end).
+Proof.
+  intros Hc Hnp K Kp HKK. induction n as [|n IHn]; intros loc0 tl.
+  - cbn [skipto_scan peg_skip_scan]. rewrite fail_pe by reflexivity. reflexivity.
+  - cbn [skipto_scan peg_skip_scan]. destruct (Nat.ltb (length s) tl).
+    + rewrite fail_pe by reflexivity. reflexivity.
+    + unfold call. cbn [run].
+      pose proof (IHnp target Hc Hnp tl false) as H1. unfold good in H1.
+      destruct (pparse f (mkargs target s tl false false)) as [[l r|x|]|]; simpl in H1.
+      * injection H1 as <-. apply HKK.
+      * destruct (is_pe (xk x)) eqn:K1; [|discriminate]. injection H1 as <-. rewrite ?K1. cbn [orb]. apply IHn.
+      * injection H1 as <-. reflexivity.
+      * injection H1 as <-. reflexivity.
+Qed.
+
 Lemma env_lookup id c : nth_error G id = Some c -> in_class G c = true.
 Proof.
   intros H. unfold env_in_class in HG. rewrite forallb_forall in HG. apply HG. eapply nth_error_In. exact H.
 Qed.
 
-Lemma level_step e : in_class G e = true -> forall loc0 d pre,
-  (pre = false -> stable e loc0) ->
-  good (run (pparse f) (step G (mkargs e s loc0 d pre))) (ppeg (S f) e loc0).
+Lemma level_core e : in_class G e = true -> forall L d, head_ok e L ->
+  good (run (pparse f) (impl G e s L d (step_k e s d L))) (peg_at f e L).
 Proof.
-  intros He loc0 d pre Hst.
-  rewrite step_plain by exact He. cbv zeta.
-  assert ((if pre then eff s e loc0 else loc0) = eff s e loc0) as ->.
-  { destruct pre; [reflexivity|]. symmetry. apply Hst. reflexivity. }
-  set (L := eff s e loc0).
+  intros He L d Hst.
   assert (HK : forall l acc, run (pparse f) (step_k e s d L (inr (l, RPR acc))) =
                              Some (Ok l (pr_init (post_parse e (RPR acc)) None (aslist (attrs_of e)) (modalr (attrs_of e))))).
   { intros l acc. unfold step_k. rewrite finish_plain by exact He. reflexivity. }
-  destruct e as [a i t|a i k es|a i k c|a i z body ne|a i c inc ig fo|a i id]; cbn [peg attrs_of]; fold L.
+  destruct e as [a i t|a i k es|a i k c|a i z body ne|a i c inc ig fo|a i id]; cbn [peg_at attrs_of].
   - (* tokens *)
     pose proof He as He'. simpl in He. repeat (apply andb_prop in He as [He ?]).
     cbn [impl]. unfold step_k. cbn [attrs_of].
@@ -435,7 +582,7 @@ Proof.
       apply andb_prop in Hall as [Hc Hall].
       cbn [impl]. unfold call. cbn [run peg_seq].
       destruct (IH c Hc L d) as [_ H2].
-      specialize (H2 (stable_child (Nary a i NAnd (c :: rest)) c loc0 Hck)). unfold good in H2.
+      specialize (H2 (Hst c eq_refl)). unfold good in H2.
       destruct (pparse f (mkargs c s L d false)) as [[l r|x|]|]; simpl in H2.
       * injection H2 as <-. cbn [app].
         eapply (and_go_ok (Nary a i NAnd (c :: rest)) d L a); try exact Hall.
@@ -474,7 +621,7 @@ Proof.
     destruct k; try discriminate Hk; cbn [impl]; unfold call, can_parse_next, try_parse, call; cbn [run].
     + (* EPass *)
       destruct (IH c Hc L d) as [_ H2].
-      specialize (H2 (stable_child (Enh a i EPass c) c loc0 Hk)). unfold good in H2.
+      specialize (H2 (Hst c eq_refl)). unfold good in H2.
       destruct (pparse f (mkargs c s L d false)) as [[l r|x|]|]; simpl in H2.
       * injection H2 as <-. rewrite HK. reflexivity.
       * destruct (is_pe (xk x)) eqn:K; [|discriminate]. injection H2 as <-.
@@ -486,7 +633,7 @@ Proof.
     + (* EGroup false *)
       destruct aspy; [discriminate Hk|].
       destruct (IH c Hc L d) as [_ H2].
-      specialize (H2 (stable_child (Enh a i (EGroup false) c) c loc0 Hk)). unfold good in H2.
+      specialize (H2 (Hst c eq_refl)). unfold good in H2.
       destruct (pparse f (mkargs c s L d false)) as [[l r|x|]|]; simpl in H2.
       * injection H2 as <-. rewrite HK. reflexivity.
       * destruct (is_pe (xk x)) eqn:K; [|discriminate]. injection H2 as <-.
@@ -497,7 +644,7 @@ Proof.
       * injection H2 as <-. reflexivity.
     + (* ESuppress *)
       destruct (IH c Hc L d) as [_ H2].
-      specialize (H2 (stable_child (Enh a i ESuppress c) c loc0 Hk)). unfold good in H2.
+      specialize (H2 (Hst c eq_refl)). unfold good in H2.
       destruct (pparse f (mkargs c s L d false)) as [[l r|x|]|]; simpl in H2.
       * injection H2 as <-. rewrite HK. reflexivity.
       * destruct (is_pe (xk x)) eqn:K; [|discriminate]. injection H2 as <-.
@@ -509,7 +656,7 @@ Proof.
     + (* ECombine: the content yields scalar tokens only (flat_class), on which _asStringList is the reading's join *)
       apply andb_prop in Hk as [Hk Hflat].
       destruct (IH c Hc L d) as [_ H2].
-      specialize (H2 (stable_child (Enh a i (ECombine join) c) c loc0 Hk)). unfold good in H2.
+      specialize (H2 (Hst c eq_refl)). unfold good in H2.
       destruct (pparse f (mkargs c s L d false)) as [[l r|x|]|]; simpl in H2.
       * injection H2 as H2. rewrite <- H2.
         pose proof (flat_scalars G s f c Hflat L l (pr_as_list r) (eq_sym H2)) as Hsc.
@@ -525,7 +672,7 @@ Proof.
       * injection H2 as <-. reflexivity.
     + (* EOpt *)
       destruct (IH c Hc L d) as [_ H2].
-      specialize (H2 (stable_child (Enh a i (EOpt default) c) c loc0 Hk)). unfold good in H2.
+      specialize (H2 (Hst c eq_refl)). unfold good in H2.
       destruct (pparse f (mkargs c s L d false)) as [[l r|x|]|]; simpl in H2.
       * injection H2 as <-. rewrite HK. reflexivity.
       * destruct (is_pe (xk x)) eqn:K; [|discriminate]. injection H2 as <-.
@@ -561,21 +708,65 @@ Proof.
       * injection H1 as <-. reflexivity.
       * injection H1 as <-. reflexivity.
   - (* repetition *)
-    destruct ne as [ne|]; [discriminate He|].
-    pose proof He as He'. simpl in He. apply andb_prop in He as [He Hb].
+    pose proof He as He'. simpl in He. apply andb_prop in He as [He Hne]. apply andb_prop in He as [He Hb].
+    destruct ne as [ne|].
+    + (* with stop_on *)
+      cbn [impl]. unfold check_ender, try_parse, call. cbn [run].
+      destruct (IH ne Hne L false) as [N1 _]. unfold good in N1.
+      destruct (pparse f (mkargs ne s L false true)) as [[nl nr|nx|]|]; simpl in N1.
+      * injection N1 as <-. cbn [run].
+        destruct (IH body Hb L d) as [H1 _]. unfold good in H1.
+        destruct (pparse f (mkargs body s L d true)) as [[l r|x|]|]; simpl in H1.
+        -- injection H1 as <-. apply rep_go_stop_ok; [exact He'|exact Hb|exact Hne|].
+           intros l0 acc. rewrite HK. reflexivity.
+        -- destruct (is_pe (xk x)) eqn:K; [|discriminate]. injection H1 as <-.
+           rewrite ?K. cbn [orb]. destruct z; cbn [andb].
+           ++ destruct (in_class_plain _ He') as [Hp _]. destruct (plain_inv _ Hp) as [_ Hn]. simpl in Hn.
+              rewrite HK. cbn [attrs_of]. rewrite Hn. reflexivity.
+           ++ rewrite fail_pe by exact K. unfold good. simpl. rewrite K. reflexivity.
+        -- injection H1 as <-. reflexivity.
+        -- injection H1 as <-. reflexivity.
+      * destruct (is_pe (xk nx)) eqn:K; [|discriminate]. injection N1 as <-.
+        rewrite (is_pe_not_fatal _ K). cbn [andb]. rewrite ?K. cbn [orb]. destruct z; cbn [andb].
+        -- destruct (in_class_plain _ He') as [Hp _]. destruct (plain_inv _ Hp) as [_ Hn]. simpl in Hn.
+           rewrite HK. cbn [attrs_of]. rewrite Hn. reflexivity.
+        -- rewrite fail_pe by exact K. unfold good. simpl. rewrite K. reflexivity.
+      * injection N1 as <-. reflexivity.
+      * injection N1 as <-. reflexivity.
+    + (* without stop_on *)
     cbn [impl]. unfold check_ender, call. cbn [run].
     destruct (IH body Hb L d) as [H1 _]. unfold good in H1.
     destruct (pparse f (mkargs body s L d true)) as [[l r|x|]|]; simpl in H1.
-    + injection H1 as <-. apply rep_go_ok; [exact He'|exact Hb|].
+    * injection H1 as <-. apply rep_go_ok; [exact He'|exact Hb|].
       intros l0 acc. rewrite HK. reflexivity.
-    + destruct (is_pe (xk x)) eqn:K; [|discriminate]. injection H1 as <-.
+    * destruct (is_pe (xk x)) eqn:K; [|discriminate]. injection H1 as <-.
       rewrite ?K. cbn [orb]. destruct z; cbn [andb].
-      * destruct (in_class_plain _ He') as [Hp _]. destruct (plain_inv _ Hp) as [_ Hn]. simpl in Hn.
-        rewrite HK. cbn [attrs_of]. rewrite Hn. reflexivity.
-      * rewrite fail_pe by exact K. unfold good. simpl. rewrite K. reflexivity.
-    + injection H1 as <-. reflexivity.
-    + injection H1 as <-. reflexivity.
-  - discriminate He.
+      -- destruct (in_class_plain _ He') as [Hp _]. destruct (plain_inv _ Hp) as [_ Hn]. simpl in Hn.
+         rewrite HK. cbn [attrs_of]. rewrite Hn. reflexivity.
+      -- rewrite fail_pe by exact K. unfold good. simpl. rewrite K. reflexivity.
+    * injection H1 as <-. reflexivity.
+    * injection H1 as <-. reflexivity.
+  - (* SkipTo *)
+    pose proof He as He'. simpl in He. destruct ig; [|discriminate He]. destruct fo; [discriminate He|].
+    apply andb_prop in He as [He Hnp]. apply andb_prop in He as [He Hc].
+    cbn [impl].
+    apply (skipto_scan_ok (Skip a i c inc [] None) c d L Hc Hnp _
+             (fun tl => if inc then match ppeg f (nopre c) tl with
+                                    | POk l ts => POk l (TStr (slice_ s L tl) :: ts)
+                                    | r => r
+                                    end
+                        else POk tl [TStr (slice_ s L tl)])).
+    intros tl. destruct inc.
+    + unfold call. cbn [run].
+      pose proof (IHnp c Hc Hnp tl d) as H1. unfold good in H1.
+      destruct (pparse f (mkargs c s tl d false)) as [[l r|x|]|]; simpl in H1.
+      * injection H1 as <-. rewrite HK. unfold good. cbn [proj post_parse].
+        rewrite as_list_init_noname. unfold raw_tokens. cbn [pr_new]. rewrite as_list_iadd. reflexivity.
+      * destruct (is_pe (xk x)) eqn:K1; [|discriminate]. injection H1 as <-.
+        unfold failo_of. rewrite fail_pe by exact K1. unfold good. simpl. rewrite K1. reflexivity.
+      * injection H1 as <-. reflexivity.
+      * injection H1 as <-. reflexivity.
+    + rewrite HK. reflexivity.
   - (* Forward *)
     destruct id as [id|]; [|discriminate He].
     pose proof He as He'. simpl in He. apply andb_prop in He as [He Hk].
@@ -583,7 +774,7 @@ Proof.
     + pose proof (env_lookup id c En) as Hc.
       unfold call. cbn [run].
       destruct (IH c Hc L d) as [_ H2].
-      specialize (H2 (stable_child (Fwd a i (Some id)) c loc0 Hk)). unfold good in H2.
+      specialize (H2 (Hst c En)). unfold good in H2.
       destruct (pparse f (mkargs c s L d false)) as [[l r|x|]|]; simpl in H2.
       * injection H2 as <-. rewrite HK. reflexivity.
       * destruct (is_pe (xk x)) eqn:K; [|discriminate]. injection H2 as <-.
@@ -594,14 +785,47 @@ Proof.
       * injection H2 as <-. reflexivity.
     + rewrite fail_pe by reflexivity. reflexivity.
 Qed.
+
+Lemma level_step e : in_class G e = true -> forall loc0 d pre,
+  (pre = false -> stable e loc0) ->
+  good (run (pparse f) (step G (mkargs e s loc0 d pre))) (ppeg (S f) e loc0).
+Proof.
+  intros He loc0 d pre Hst.
+  rewrite step_plain by exact He. cbv zeta.
+  assert ((if pre then eff s e loc0 else loc0) = eff s e loc0) as ->.
+  { destruct pre; [reflexivity|]. symmetry. apply Hst. reflexivity. }
+  rewrite peg_S. apply level_core; [exact He|].
+  intros c Hc. apply stable_child. exact (in_class_head e c He Hc).
+Qed.
+
+(* a call without pre-parse at any location: the element itself does not skip; the component it calls without pre-parse
+   never skips (np_ok), so it is at a stable location wherever it is called *)
+Lemma level_np e : in_class G e = true -> np_ok G e = true -> forall L d,
+  good (run (pparse f) (step G (mkargs e s L d false))) (ppeg (S f) (nopre e) L).
+Proof.
+  intros He Hn L d. rewrite step_plain by exact He. cbv zeta.
+  rewrite peg_S, eff_nopre, peg_at_nopre.
+  apply level_core; [exact He|].
+  intros c Hc. unfold np_ok in Hn. rewrite Hc in Hn. apply nonskip_stable. exact Hn.
+Qed.
 End Level.
 
-Theorem peg_equiv : forall f, inv f.
+Theorem peg_equiv_np : forall f, inv f /\ invnp f.
 Proof.
-  induction f as [|f IHf]; intros e He loc d.
-  - split; intros; reflexivity.
-  - split; [|intros Hs]; cbn [parse]; apply level_step; try assumption; congruence.
+  induction f as [|f [IHf IHn]]; split.
+  - intros e He loc d. split; intros; reflexivity.
+  - intros e He Hn loc d. reflexivity.
+  - intros e He loc d.
+    split; [|intros Hs]; cbn [parse]; apply level_step; try assumption; congruence.
+  - intros e He Hn loc d. cbn [parse]. apply level_np; assumption.
 Qed.
+
+Theorem peg_equiv : forall f, inv f.
+Proof. exact (fun f => proj1 (peg_equiv_np f)). Qed.
+
+(* how SkipTo calls its target: without pre-parse, at any location *)
+Theorem peg_equiv_nopre_any : forall f, invnp f.
+Proof. exact (fun f => proj2 (peg_equiv_np f)). Qed.
 End Equiv.
 
 (* Each over operands of the class, spelled out (a special case of peg_equiv: such an Each node is itself in the class) *)
